@@ -311,6 +311,16 @@ def ob_padding_arithmetic(run, oid):
                     rto = x
                 elif "RangeFrom" in str(x[1]):
                     rfrom = x
+    # `payload.split_at(b)` gives both halves at once: ([..b], [b..])
+    split_b = None
+    for c in b.calls():
+        if c.name.rsplit("::", 1)[-1] in ("split_at", "split_at_checked") and len(c.args) == 2 and K.mentions_arg(b, b.operand_term(c.args[0]), 2):
+            split_b = b.operand_term(c.args[1])
+    if split_b is not None:
+        if rto is None:
+            rto = ("agg", "split_at::RangeTo", "RangeTo", (("end", split_b),))
+        if rfrom is None:
+            rfrom = ("agg", "split_at::RangeFrom", "RangeFrom", (("start", split_b),))
     if reset is None or resize is None or len(chunks) != 2 or rto is None or rfrom is None:
         o.fail("shred|anchors", "could not find reset / resize / two chunks calls / payload[..b] and payload[b..]", b.span,
                {"chunks": len(chunks), "range_to": rto is not None, "range_from": rfrom is not None})
@@ -604,6 +614,13 @@ def ob_decode_tail(run, oid):
             t = b.operand_term(c.args[0])
             if K.mentions_call(t, "take_while") and K.mentions_call(t, "rev"):
                 scans.append((c, t))
+        if not scans:
+            # `.iter().rev().position(|b| *b != 0)`: index of the last non-zero byte counted from the end = number of trailing zeros
+            for c in b.calls():
+                if c.name.rsplit("::", 1)[-1] in ("position", "rposition") and c.args:
+                    t = b.operand_term(c.args[0])
+                    if (K.mentions_call(t, "rev") or c.name.endswith("rposition")) and not K.mentions_call(t, "take_while"):
+                        scans.append((c, t))
         loop_form = False
         if not scans:
             # explicit loop: `for b in payload.iter().rev() { if *b != 0 { break; } n += 1; }`
